@@ -31,7 +31,9 @@ pub fn write_module(
     for segment in key.iter() {
         path.push(segment.as_str());
     }
-    path.set_extension("rs");
+    // Append the extension rather than replacing one: a segment may contain dots
+    // (`a.v2.pyxis` is the module `a.v2`, which must not be written over `a.rs`).
+    path.as_mut_os_string().push(".rs");
 
     let directory_path = path.parent().map(|p| p.to_path_buf()).unwrap_or_default();
     std::fs::create_dir_all(directory_path)?;
